@@ -21,20 +21,6 @@ pub open spec fn crc_from(init: u16, m: Seq<u8>) -> u16
     if m.len() == 0 { init } else { step8(crc_from(init, m.drop_last()), m.last() as u16) }
 }
 
-// ASSUMED contract of std: `Iterator::fold` on a slice iterator = left fold over the remaining elements.
-// std: "Folds every element into an accumulator by applying an operation, returning the final result."
-// Stated for every spec function g that describes the closure: if each call of f returns g(acc, x), the result is the
-// left fold of g (vstd's Seq::fold_left) over the elements the iterator still holds.
-pub assume_specification<'a, T, B, F> [ <std::slice::Iter<'a, T> as std::iter::Iterator>::fold ] (it: std::slice::Iter<'a, T>, init: B, f: F) -> (r: B)
-    where F: FnMut(B, &'a T) -> B,
-    requires
-        forall|b: B, x: &'a T| call_requires(f, (b, x)),
-    ensures
-        forall|g: spec_fn(B, &'a T) -> B, s: Seq<&'a T>|
-            s =~= it.remaining() && (forall|b: B, x: &'a T, o: B| call_ensures(f, (b, x), o) ==> o == g(b, x))
-            ==> r == #[trigger] s.fold_left(init, g),
-;
-
 pub open spec fn crc_g<'a>() -> spec_fn(u16, &'a u8) -> u16 {
     |acc: u16, d: &'a u8| step8(acc, *d as u16)
 }
